@@ -9,7 +9,6 @@ import (
 	"path/filepath"
 	"sort"
 	"strconv"
-	"strings"
 	"testing"
 
 	"github.com/AdguardTeam/AdGuardHome/internal/configmigrate"
@@ -204,5 +203,4 @@ func TestVerifC13Load(t *testing.T) {
 		c13lDir = t.TempDir()
 	}
 	vutil.Main(t, c13lGen, c13lRun)
-	_ = strings.TrimSpace
 }
